@@ -479,6 +479,7 @@ CORE = [
     ("gglwe_prepare_tmp_bytes", CO + "layouts/prepared/gglwe.rs", "trait GGLWEPreparedFactory", "gglwe_prepare_tmp_bytes", MOD),
     ("ggsw_prepare_tmp_bytes", CO + "layouts/prepared/ggsw.rs", "trait GGSWPreparedFactory", "ggsw_prepare_tmp_bytes", MOD),
     ("glwe_automorphism_tmp_bytes", CO + "automorphism/glwe_ct.rs", "trait GLWEAutomorphismDefault", "glwe_automorphism_tmp_bytes_default", MOD),
+    ("glwe_trace_assign_same_radix_tmp_bytes", CO + "glwe_trace.rs", "trait GLWETraceDefault", "glwe_trace_assign_same_radix_tmp_bytes", MOD),
     ("glwe_trace_tmp_bytes", CO + "glwe_trace.rs", "trait GLWETraceDefault", "glwe_trace_tmp_bytes_default", MOD),
 ]
 FUNCS += CORE
@@ -505,6 +506,8 @@ CALLS = {
     "self.glwe_keyswitch_tmp_bytes": ("glwe_keyswitch_tmp_bytes", MOD),
     "self.glwe_external_product_internal_tmp_bytes": ("glwe_external_product_internal_tmp_bytes", MOD),
     "self.glwe_automorphism_tmp_bytes": ("glwe_automorphism_tmp_bytes", MOD),
+    "self.glwe_trace_assign_same_radix_tmp_bytes": ("glwe_trace_assign_same_radix_tmp_bytes", MOD),
+    "self.glwe_shift_tmp_bytes": ("glwe_shift_tmp_bytes", MOD),
     "self.glwe_external_product_tmp_bytes": ("glwe_external_product_tmp_bytes", MOD),
     # aliases of the reference functions inside hal_defaults (checked against the `use .. as ..` lines)
     "vec_znx_normalize_tmp_bytes": ("ref_vec_znx_normalize_tmp_bytes", FREE),
